@@ -588,6 +588,13 @@ Proof.
   rewrite (H m (or_introl eq_refl)). rewrite IH; [reflexivity|]. intros; apply H; right; assumption.
 Qed.
 
+Lemma In_zfirstn {A} (n : Z) (l : list A) (x : A) : In x (zfirstn n l) -> In x l.
+Proof.
+  revert n. induction l as [|a l IH]; intros n H; [exact H|].
+  cbn [zfirstn] in H. destruct (n <=? 0); [contradiction|].
+  destruct H as [->|H]; [left; reflexivity|right; eapply IH; exact H].
+Qed.
+
 Lemma take_count_incl (count : Z) (ms : list mtch) (m : mtch) : In m (take_count count ms) -> In m ms.
 Proof.
   unfold take_count. destruct (count <? 0); [auto|]. generalize count. clear count.
@@ -753,4 +760,231 @@ Proof.
     rewrite check_start_not_boundary by assumption. reflexivity.
   - intros H1 H2 H3 ->. destruct (count <? -1) eqn:E; [lia|]. destruct (count =? 0) eqn:E0; [reflexivity|].
     rewrite check_start_ok by assumption. cbn [bind]. destruct r, rtl; reflexivity.
+Qed.
+
+(* ------------------------------------------------------------------------------------------ *)
+(** * Split                                                                                     *)
+
+Lemma group_string_ok (text : list Z) (caps : list (Z * Z)) :
+  Forall (cap_in_bounds (zlen text)) caps -> group_string text caps = Ok (cap_text text caps).
+Proof.
+  intros HF. unfold group_string, cap_text. pose proof (zlen_nonneg text).
+  destruct (last_opt caps) as [[i l]|] eqn:HL.
+  - destruct (cap_in_bounds_last _ _ _ _ HF HL) as (? & ? & ?). apply slice_expr_ok; lia.
+  - rewrite slice_expr_ok by lia. rewrite zslice_empty by lia. reflexivity.
+Qed.
+
+Lemma strings_of_groups_ok (text : list Z) (gs : list (list (Z * Z))) :
+  Forall (Forall (cap_in_bounds (zlen text))) gs ->
+  strings_of_groups text gs = Ok (map (cap_text text) gs).
+Proof.
+  induction gs as [|g gs IH]; intros HF; [reflexivity|]. inversion HF; subst.
+  cbn [strings_of_groups map]. rewrite group_string_ok by assumption. cbn [bind].
+  rewrite IH by assumption. reflexivity.
+Qed.
+
+Lemma group_strings_ok (text : list Z) (m : mtch) :
+  wf_match (zlen text) m -> group_strings text m = Ok (group_texts text m).
+Proof.
+  intros (_ & _ & _ & Hne & HF). unfold group_strings, group_texts.
+  destruct (m_groups m) as [|g gs]; [contradiction|]. inversion HF; subst.
+  cbn [tl]. apply strings_of_groups_ok. assumption.
+Qed.
+
+(* the pieces for the region [lo,hi) with ascending matches; gt m = what a match contributes *)
+Fixpoint sfb (gt : mtch -> list (list Z)) (text : list Z) (lo hi : Z) (ms : list mtch) : list (list Z) :=
+  match ms with
+  | [] => [zslice text lo hi]
+  | m :: ms' => zslice text lo (m_index m) :: gt m ++ sfb gt text (m_index m + m_length m) hi ms'
+  end.
+
+Lemma split_fold_sfb (text : list Z) (lo : Z) (ms : list mtch) :
+  split_fold text lo ms = sfb (group_texts text) text lo (zlen text) ms.
+Proof.
+  revert lo. induction ms as [|m ms IH]; intros lo; cbn [split_fold sfb].
+  - rewrite zslice_to_end. reflexivity.
+  - rewrite IH. reflexivity.
+Qed.
+
+Lemma sfb_snoc (gt : mtch -> list (list Z)) (text : list Z) (lo hi : Z) (ms : list mtch) (m : mtch) :
+  sfb gt text lo hi (ms ++ [m]) =
+  sfb gt text lo (m_index m) ms ++ gt m ++ [zslice text (m_index m + m_length m) hi].
+Proof.
+  revert lo. induction ms as [|a ms IH]; intros lo; cbn [app sfb]; [reflexivity|].
+  rewrite IH. rewrite <- !app_assoc. reflexivity.
+Qed.
+
+Lemma split_fold_rtl_rev (text : list Z) (hi : Z) (ms : list mtch) :
+  rev (split_fold_rtl text hi ms) = sfb (fun m => rev (group_texts text m)) text 0 hi (rev ms).
+Proof.
+  revert hi. induction ms as [|m ms IH]; intros hi; cbn [split_fold_rtl rev sfb].
+  - rewrite zslice_from_0. reflexivity.
+  - rewrite sfb_snoc. rewrite <- IH. rewrite rev_app_distr. rewrite <- app_assoc. reflexivity.
+Qed.
+
+Definition isnil {A} (l : list A) : bool := match l with [] => true | _ => false end.
+
+Lemma split_loop_ltr (text : list Z) :
+  forall (ms : list mtch) (count prior : Z) (first : bool) (ret : list (list Z)),
+    0 <= prior -> ord_asc prior (zlen text) ms -> Forall (wf_match (zlen text)) ms ->
+    exists body prior',
+      split_loop false text ms count prior first ret = Ok (ret ++ body, prior', first && isnil (zfirstn count ms)) /\
+      prior <= prior' /\ prior' <= zlen text /\
+      body ++ [zslice text prior' (zlen text)] = sfb (group_texts text) text prior (zlen text) (zfirstn count ms).
+Proof.
+  induction ms as [|m ms IH]; intros count prior first ret Hp Ho HF.
+  - exists [], prior. cbn [split_loop zfirstn isnil sfb ord_asc] in *. rewrite app_nil_r, andb_true_r.
+    repeat split; try lia; try reflexivity.
+  - cbn [split_loop]. destruct (count <=? 0) eqn:Ec.
+    + exists [], prior. rewrite zfirstn_nonpos by lia. cbn [isnil sfb]. rewrite app_nil_r, andb_true_r.
+      pose proof (ord_asc_le _ _ _ Ho). repeat split; try lia; try reflexivity.
+    + inversion HF as [|? ? Hm HF']; subst. cbn [ord_asc] in Ho. destruct Ho as (Ho1 & Ho2 & Ho3).
+      pose proof (ord_asc_le _ _ _ Ho3) as Hle.
+      cbn [andb]. rewrite slice_expr_ok by lia. cbn [bind].
+      rewrite group_strings_ok by assumption. cbn [bind].
+      destruct (IH (count - 1) (m_index m + m_length m) false
+                   (ret ++ zslice text prior (m_index m) :: group_texts text m)) as (body & p' & HX & H1 & H2 & HE);
+        try assumption; try lia.
+      exists (zslice text prior (m_index m) :: group_texts text m ++ body), p'.
+      rewrite HX. rewrite zfirstn_cons by lia. cbn [isnil sfb andb]. rewrite andb_false_r.
+      rewrite <- HE. rewrite <- !app_assoc. cbn [app]. rewrite <- !app_assoc. repeat split; try lia; try reflexivity.
+Qed.
+
+Lemma split_loop_rtl (text : list Z) :
+  forall (ms : list mtch) (count prior : Z) (first : bool) (ret : list (list Z)),
+    let eff := if first then zlen text else prior in
+    0 <= eff -> eff <= zlen text -> ordered_rtl eff ms -> Forall (wf_match (zlen text)) ms ->
+    exists body prior' first',
+      split_loop true text ms count prior first ret = Ok (ret ++ body, prior', first') /\
+      first' = first && isnil (zfirstn count ms) /\
+      let eff' := if first' then zlen text else prior' in
+      0 <= eff' /\ eff' <= eff /\
+      body ++ [zslice text 0 eff'] = split_fold_rtl text eff (zfirstn count ms).
+Proof.
+  induction ms as [|m ms IH]; intros count prior first ret eff H0 Hp Ho HF.
+  - exists [], prior, first. cbn [split_loop zfirstn isnil split_fold_rtl]. rewrite app_nil_r, andb_true_r.
+    fold eff. rewrite zslice_from_0. repeat split; try lia; try reflexivity.
+  - cbn [split_loop]. destruct (count <=? 0) eqn:Ec.
+    + exists [], prior, first. rewrite zfirstn_nonpos by lia. cbn [isnil split_fold_rtl]. rewrite app_nil_r, andb_true_r.
+      fold eff. rewrite zslice_from_0. repeat split; try lia; try reflexivity.
+    + inversion HF as [|? ? Hm HF']; subst. pose proof Hm as (Hi & Hl & Hb & _).
+      cbn [ordered_rtl] in Ho. destruct Ho as (Ho1 & Ho2).
+      cbn [andb]. fold eff. rewrite slice_expr_ok by lia. cbn [bind].
+      rewrite group_strings_ok by assumption. cbn [bind].
+      destruct (IH (count - 1) (m_index m) false
+                   (ret ++ zslice text (m_index m + m_length m) eff :: group_texts text m))
+        as (body & p' & f' & HX & Hf & H1 & H2 & HE); try assumption; try lia.
+      rewrite Hf in *. cbn [andb] in *.
+      exists (zslice text (m_index m + m_length m) eff :: group_texts text m ++ body), p', false.
+      rewrite HX. rewrite zfirstn_cons by lia. cbn [isnil split_fold_rtl]. rewrite andb_false_r.
+      rewrite <- HE. rewrite <- !app_assoc. cbn [app]. rewrite <- !app_assoc. repeat split; try lia; try reflexivity.
+Qed.
+
+Lemma split_processed_eq (count : Z) (ms : list mtch) :
+  -1 <= count -> count <> 0 -> count <> 1 ->
+  split_processed count ms = zfirstn (if count =? -1 then maxint else count) ms.
+Proof.
+  intros. unfold split_processed. destruct (count =? -1) eqn:E; [reflexivity|].
+  destruct (count <=? 1) eqn:E1; [lia|reflexivity].
+Qed.
+
+Lemma split_processed_wf (rtl : bool) (text : list Z) (count : Z) (ms : list mtch) :
+  wf_matches rtl text ms -> wf_matches rtl text (split_processed count ms).
+Proof.
+  intros (HF & Ho). unfold split_processed.
+  assert (forall n, wf_matches rtl text (zfirstn n ms)) as Hz.
+  { intros n. split; [apply Forall_zfirstn; exact HF|].
+    destruct rtl; [apply ordered_rtl_zfirstn|apply ordered_ltr_zfirstn]; exact Ho. }
+  destruct (count =? -1); [apply Hz|]. destruct (count <=? 1); [|apply Hz].
+  split; [constructor|]. destruct rtl; cbn; [|lia]. exact I.
+Qed.
+
+Lemma isnil_zfirstn_pos {A} (n : Z) (l : list A) : 0 < n -> isnil (zfirstn n l) = isnil l.
+Proof. intros H. destruct l; [reflexivity|]. rewrite zfirstn_cons by lia. reflexivity. Qed.
+
+Lemma split_spec_eq (rtl : bool) (tw : list (Z * Z)) (count : Z) (ms : list mtch) :
+  -1 <= count -> wf_matches rtl (runes_of tw) ms ->
+  split rtl tw count ms = Ok (split_spec rtl ms count (runes_of tw)).
+Proof.
+  intros Hc Hwf. set (text := runes_of tw) in *. pose proof (zlen_nonneg text) as HL.
+  unfold split, split_spec. fold text.
+  destruct (count <? -1) eqn:E1; [lia|]. destruct (count =? 0) eqn:E0; [reflexivity|].
+  destruct (count =? 1) eqn:E2.
+  { replace count with 1 by lia. unfold split_processed. cbn [Z.eqb Z.leb Z.compare Pos.compare Pos.compare_cont].
+    destruct rtl; cbn [split_fold split_fold_rtl rev app].
+    - unfold zlen. rewrite Nat2Z.id, firstn_all. reflexivity.
+    - reflexivity. }
+  rewrite split_processed_eq by lia.
+  set (cnt := if count =? -1 then maxint else count).
+  assert (0 < cnt) as Hcnt by (subst cnt; destruct (count =? -1) eqn:E; [reflexivity|lia]).
+  destruct Hwf as (HF & Ho). destruct rtl.
+  - destruct (split_loop_rtl text ms cnt 0 true [] HL (Z.le_refl _) Ho HF)
+      as (body & p' & f' & -> & Hf & H1 & H2 & HE).
+    cbn [bind app]. cbn [andb] in Hf. rewrite isnil_zfirstn_pos in Hf by assumption. subst f'.
+    destruct ms as [|m ms]; cbn [isnil] in *.
+    + cbn [zfirstn split_fold_rtl rev app]. unfold zlen. rewrite Nat2Z.id, firstn_all. reflexivity.
+    + rewrite slice_expr_ok by lia. cbn [bind]. rewrite HE. reflexivity.
+  - assert (ord_asc 0 (zlen text) ms) as Ha by (eapply ordered_ltr_asc; eauto).
+    destruct (split_loop_ltr text ms cnt 0 true [] (Z.le_refl 0) Ha HF) as (body & p' & -> & H1 & H2 & HE).
+    cbn [bind app andb]. rewrite isnil_zfirstn_pos by assumption. rewrite split_fold_sfb.
+    destruct ms as [|m ms]; cbn [isnil].
+    + cbn [zfirstn sfb]. rewrite zslice_full. reflexivity.
+    + rewrite slice_expr_ok by lia. cbn [bind]. rewrite HE. reflexivity.
+Qed.
+
+(* Split's count < -1 *)
+Lemma split_count_too_small (rtl : bool) (tw : list (Z * Z)) (count : Z) (ms : list mtch) :
+  count < -1 -> split rtl tw count ms = Err E_CountTooSmall.
+Proof. intros H. unfold split. destruct (count <? -1) eqn:E; [reflexivity|lia]. Qed.
+
+(* count = -1 processes every match (a slice cannot hold more than MaxInt elements) *)
+Lemma split_processed_all (ms : list mtch) : zlen ms <= maxint -> split_processed (-1) ms = ms.
+Proof. intros H. unfold split_processed. cbn [Z.eqb Pos.eqb]. apply zfirstn_all. exact H. Qed.
+
+(* --- re-joining --- *)
+Lemma every_kth_go_skip {A} (k j : nat) (l1 l2 : list A) :
+  length l1 = j -> every_kth_go k j (l1 ++ l2) = every_kth_go k 0 l2.
+Proof.
+  revert j. induction l1 as [|x l1 IH]; intros j H; cbn [length] in H; subst j; [reflexivity|].
+  cbn [app every_kth_go]. apply IH. reflexivity.
+Qed.
+
+Lemma sfb_rejoin (gt : mtch -> list (list Z)) (text : list Z) (k : nat) :
+  forall (ms : list mtch) (lo hi : Z),
+    (forall m, In m ms -> length (gt m) = k) -> 0 <= lo -> ord_asc lo hi ms ->
+    interleave (every_kth k (sfb gt text lo hi ms)) (map (matched_text text) ms) = zslice text lo hi.
+Proof.
+  induction ms as [|m ms IH]; intros lo hi Hk H0 Ho; cbn [sfb map ord_asc] in *.
+  - cbn. rewrite app_nil_r. reflexivity.
+  - destruct Ho as (H1 & H2 & H3). pose proof (ord_asc_le _ _ _ H3) as Hle.
+    unfold every_kth. cbn [every_kth_go]. rewrite every_kth_go_skip by (apply Hk; left; reflexivity).
+    cbn [interleave]. fold (every_kth k (sfb gt text (m_index m + m_length m) hi ms)).
+    rewrite IH; try assumption; try lia.
+    + unfold matched_text. rewrite zslice_app by lia. rewrite zslice_app by lia. reflexivity.
+    + intros; apply Hk; right; assumption.
+Qed.
+
+Lemma split_rejoin (rtl : bool) (ms : list mtch) (count : Z) (text : list Z) (k : nat) :
+  count <> 0 -> wf_matches rtl text ms ->
+  Forall (fun m => length (m_groups m) = S k) ms ->
+  interleave (every_kth k (split_spec rtl ms count text))
+             (map (matched_text text) (text_order rtl (split_processed count ms))) = text.
+Proof.
+  intros Hc Hwf Hk. unfold split_spec. destruct (count =? 0) eqn:E0; [lia|].
+  pose proof (split_processed_wf rtl text count ms Hwf) as Hp.
+  pose proof (wf_matches_asc _ _ _ Hp) as Ha.
+  assert (forall m, In m (split_processed count ms) -> length (tl (m_groups m)) = k) as Hlen.
+  { intros m Hin. assert (In m ms) as Hin'.
+    { revert Hin. unfold split_processed. destruct (count =? -1); [apply In_zfirstn|].
+      destruct (count <=? 1); [intros []|apply In_zfirstn]. }
+    pose proof (Forall_In _ _ _ Hk Hin') as Hl. cbv beta in Hl.
+    destruct (m_groups m); cbn [length tl] in *; lia. }
+  destruct rtl; cbn [text_order] in *.
+  - rewrite split_fold_rtl_rev. rewrite sfb_rejoin; try assumption; try lia.
+    + apply zslice_full.
+    + intros m Hin. rewrite <- in_rev in Hin. rewrite rev_length. unfold group_texts. rewrite map_length.
+      apply Hlen. exact Hin.
+  - rewrite split_fold_sfb. rewrite sfb_rejoin; try assumption; try lia.
+    + apply zslice_full.
+    + intros m Hin. unfold group_texts. rewrite map_length. apply Hlen. exact Hin.
 Qed.
